@@ -133,6 +133,8 @@ func checkBool(c BoolCase, gens []boolGen) string {
 		if err != nil {
 			return fmt.Sprintf("%s: Generate(%q) failed: %v", bg.name, c.Text, err)
 		}
+		// the host hands every assignment to the function on ONE stack that it initialises again
+		st := funcGen.NewEmptyStack[bool]()
 		for m := 0; m < 8; m++ {
 			a, b, cc := m&1 != 0, m&2 != 0, m&4 != 0
 			want := evalBool(c.Tree, map[string]bool{"a": a, "b": b, "c": cc})
@@ -142,6 +144,10 @@ func checkBool(c BoolCase, gens []boolGen) string {
 			}
 			if got != want {
 				return fmt.Sprintf("%s: %q with a=%v b=%v c=%v = %v, want %v", bg.name, c.Text, a, b, cc, got, want)
+			}
+			st = st.Init(a, b, cc)
+			if got, err := f(st); err != nil || got != want {
+				return fmt.Sprintf("%s: %q with a=%v b=%v c=%v on a stack that was initialised again = %v (%v), want %v", bg.name, c.Text, a, b, cc, got, err, want)
 			}
 		}
 	}
